@@ -1,8 +1,4 @@
-// ===== spec/c12_oracle.rs — C12: the token rule as a spec function, its executable twin (proved equal), and the
-// lemma that every token Breadlog inserts satisfies it with the assigned number.  Verified AND compiled by Verus
-// (`verus --compile`): the resulting binary is the oracle of the bounded-exhaustive conformance run. =====
-use vstd::prelude::*;
-use std::io::BufRead;
+// ===== spec/token.rs — C12: the token rule, its executable twin, and the inserted-token lemma (see spec/c12_oracle_main.rs) =====
 verus! {
 
 pub open spec fn is_digit(c: char) -> bool { '0' <= c && c <= '9' }
@@ -124,12 +120,14 @@ proof fn lemma_pow10_values()
 // ---- [C12.inserted] the token Breadlog writes is read back with the number it was given --------------------------
 // canonical decimal rendering — the same definition as in shims/prelude.rs, which insertable_reference_string is
 // proved against in unit `entry` ([C12.inserted] there: r@ == "[ref: " + dec(id) + "] ")
+//@STANDALONE-BEGIN (the two definitions below are also in shims/prelude.rs; units that include the prelude drop this region)
 pub open spec fn digit(d: nat) -> char { (('0' as u8) + d as u8) as char }
 pub open spec fn dec(n: nat) -> Seq<char>
     decreases n
 {
     if n < 10 { seq![digit(n)] } else { dec(n / 10).push(digit(n % 10)) }
 }
+//@STANDALONE-END
 proof fn lemma_dec_props(n: nat, k: nat)
     requires n < pow10(k), k >= 1
     ensures
@@ -181,17 +179,3 @@ pub proof fn lemma_inserted_token_reads_back(id: u32, rest: Seq<char>)
 
 } // verus!
 
-// Unverified glue: one candidate message literal per input line -> `Some(n)` / `None` per output line.
-fn main() {
-    let stdin = std::io::stdin();
-    let mut out = String::new();
-    for line in stdin.lock().lines() {
-        let line = line.unwrap();
-        let v: Vec<char> = line.chars().collect();
-        match exec_extract(&v) {
-            Some(n) => { out.push_str("Some("); out.push_str(&n.to_string()); out.push_str(")\n"); }
-            None => out.push_str("None\n"),
-        }
-    }
-    print!("{}", out);
-}
